@@ -202,6 +202,15 @@ def run(tier='quick'):
                           'GLOB against a bound or computed pattern (case-insensitive, _ and % are wildcards: memberships of '
                           'other crates whose names merely resemble the pattern would go as well)', floor=20)
     extra.no_pattern_match_in_writes(prog, cg, eff, chk, K11)
+    K12 = chk.rule('K12', 'a membership operation that fails says so: no catch handler reachable from add_track / remove_track / '
+                          'clear_tracks / remove_crate / remove_track of the database completes normally on an SQL error or on a '
+                          'type that a handler of the library throws in place of one (rule A4 of C14) - otherwise remove_track '
+                          'returns normally while the track is still in the crate', floor=1)
+    from . import c14 as _c14s
+    roots = [f for f in prog.functions.values() if f.body is not None and not f.is_pattern and prog.in_repo(f.file) and
+             f.name in ('add_track', 'remove_track', 'clear_tracks', 'remove_crate', 'add_back', 'remove', 'clear') and
+             (f.cls or '').startswith('djinterop::engine::')]
+    _c14s.swallowed_errors(prog, cg, chk, K12, roots)
     return chk.finish('value-flow interpretation of the membership operations of both implementations '
                       '(id kinds of bound values, event order), reference graph and triggers read from the DDL '
                       'of every schema version')
